@@ -123,7 +123,7 @@ theorem fLet_keepsOff (d : ALetArg) (hs h : Nat) : AKeeps true h (fLet d hs h) :
 node keeps its meaning (from `addExpr_total_off`) -/
 theorem addExpr_keepsOff (s : String) : CoreKeeps true (addExpr s) := by
   refine ⟨fun m ext hm r m' he => ?_⟩
-  have k := addExpr_total_off m hm.inv (hm.mode.1 rfl) s
+  have k := addExpr_total_off m hm.inv (hm.mode rfl) s
   have h2 : (addExpr s m).2 = m' := by rw [he]
   rw [h2] at k
   exact ⟨hm.of_kept k.2.1 (k.2.2 ext hm.counts).1, heldExt_of_kept hm.inv k.2.1 ext⟩
